@@ -441,7 +441,69 @@ func C16(c *core.Ctx) error {
 			}
 		}
 	}
-	c.Ev.Set("traces_validated_against_impl", len(cases))
+	// ---- CLI slice: the same function map must be what a template rendered by the real binary sees. A probe
+	// template applies every string/int-argument case with a pinned expectation (up to 1500) and prints %#v.
+	cliN := 0
+	if err := c.BuildMockery(); err == nil {
+		var tb strings.Builder
+		tb.WriteString("// Code generated by verif probe (C16); DO NOT EDIT.\npackage {{.PkgName}}\n")
+		var picked []int
+		skipFn := map[string]bool{"getenv": true, "expandEnv": true, "readFile": true, "randInt": true, "join": true}
+		for i, cs := range cases {
+			if cs.dontCare || cs.wantErr || skipFn[cs.Fn] || len(picked) >= 1500 {
+				continue
+			}
+			ok := true
+			var args []string
+			for _, a := range cs.Args {
+				switch {
+				case a.S != nil:
+					args = append(args, *a.S)
+				case a.I != nil:
+					args = append(args, strconv.Itoa(*a.I))
+				case a.F != nil:
+					args = append(args, strconv.FormatFloat(*a.F, 'f', -1, 64))
+				default:
+					ok = false
+				}
+			}
+			// keep the slice spread over all functions: every 7th case plus all case-function cases
+			if !ok || (i%7 != 0 && cs.Fn != "exported" && cs.Fn != "firstIsLower" && cs.Fn != "firstUpper" && cs.Fn != "firstLower") {
+				continue
+			}
+			picked = append(picked, i)
+			fmt.Fprintf(&tb, "// CASE|%d|{{ printf \"%%#v\" (%s %s) }}\n", i, cs.Fn, strings.Join(args, " "))
+		}
+		tdir := filepath.Join(c.Scratch, "c16t")
+		core.WriteTree(tdir, map[string]string{"probe.templ": tb.String()})
+		cfg := core.M{"template": "file://" + filepath.Join(tdir, "probe.templ"), "formatter": "noop", "require-template-schema-exists": false, "log-level": "error",
+			"dir": "{{.InterfaceDir}}", "filename": "mocks_gen_test.go", "packages": core.M{core.ModPath + "/p": core.M{"interfaces": core.M{"I": core.M{}}}}}
+		if m, err := c.NewModule("c16-cli", map[string]string{"p/p.go": "package p\n\ntype I interface{ M() }\n", ".mockery.yml": core.YAML(cfg)}); err == nil {
+			r := c.RunMockery(m.Dir, nil)
+			out, _ := m.Read("p/mocks_gen_test.go")
+			m.Remove()
+			if r.Exit != 0 {
+				c.Report("cli:render", "a probe template applying the function map could not be rendered by the CLI: "+firstN(r.Stderr, 500), nil)
+			} else {
+				for _, l := range strings.Split(out, "\n") {
+					f := strings.SplitN(l, "|", 3)
+					if len(f) != 3 || !strings.HasPrefix(l, "// CASE|") {
+						continue
+					}
+					i, _ := strconv.Atoi(f[1])
+					cliN++
+					if f[2] != cases[i].want {
+						c.Report("cli:"+caseKey(cases[i]), fmt.Sprintf("%s rendered through the CLI gives %s, expected %s", caseKey(cases[i]), f[2], cases[i].want), cases[i])
+					}
+				}
+				if cliN != len(picked) {
+					c.Report("cli:count", fmt.Sprintf("%d of %d cases came back from the CLI", cliN, len(picked)), nil)
+				}
+			}
+		}
+	}
+	c.Ev.Set("cli_cases_compared", cliN)
+	c.Ev.Set("traces_validated_against_impl", len(cases)+cliN)
 	c.Ev.Set("distinct_outcomes", len(outcomes))
 	c.Ev.Set("exhaustive", true)
 	c.Ev.Set("rule", "every FuncMap entry x every argument tuple over the string/int/float alphabets, each evaluated through text/template on the implementation built from the working tree and compared with an independent reference (stdlib namesake with subject last, left fold integer arithmetic, rune-wise case functions); non-trivial = reference result is neither the unchanged subject nor false/empty")
